@@ -110,6 +110,13 @@ Perturb(w) ==
   \cup {SubSeq(w, 1, i - 1) \o SubSeq(w, i + 1, Len(w)) : i \in 1..Len(w)}
 KwWords == {w \in UNION {Perturb(w) : w \in KwBase} : w # <<>>}
 
+(* every simple escape of 6.4.4.4, one octal and one hex escape, alone in a character constant and in a string literal
+   with each encoding prefix, and every ordered pair of them in an unprefixed literal: each is ONE token *)
+EscapeSet == {<<BS, c>> : c \in SimpleEsc} \cup {<<BS, "1", "7">>, <<BS, "x", "1", "f">>}
+EscBodies ==
+  {p \o <<q>> \o e \o <<q>> : p \in CharPrefixes, q \in {SQ, DQ}, e \in EscapeSet}
+  \cup {<<q>> \o e1 \o e2 \o <<q>> : q \in {SQ, DQ}, e1 \in EscapeSet, e2 \in EscapeSet}
+
 (* hand-picked bodies run together with the keyword words: universal character names (the two NoUCN deviations), the
    classic maximal-munch examples of the property statement *)
 SeedBodies ==
@@ -170,7 +177,7 @@ Init ==
   /\ body = <<>> /\ sc = Scanner0 /\ out = <<>> /\ acts = {}
   /\ IF Mode = "kw"
      THEN /\ phase = "scan"
-          /\ src \in {Leader \o w \o <<NL>> : w \in KwWords \cup SeedBodies}
+          /\ src \in {Leader \o w \o <<NL>> : w \in KwWords \cup SeedBodies \cup EscBodies}
      ELSE /\ phase = "build"
           /\ src = <<>>
 
